@@ -1,2 +1,294 @@
 import NSG.Model.Coord
-/-! # C18 (theorems under construction) -/
+/-! # C18 — connection slots are bounded and always given back -/
+namespace NSG.Coord
+open NSG NSG.Defender
+
+/-- a connection that currently holds a slot: its handler is reading, parked at a barrier, or dead
+(failed write, quit pending) -/
+def Phase.live : Phase → Bool
+  | .reading | .parked _ | .dead => true
+  | _ => false
+
+/-- slots unchanged, liveness of every connection unchanged -/
+def SameSlots (s s' : St) : Prop := s'.slots = s.slots ∧ ∀ d, (s'.conn d).live = (s.conn d).live
+
+theorem SameSlots.refl (s : St) : SameSlots s s := ⟨rfl, fun _ => rfl⟩
+theorem SameSlots.trans {a b c : St} (h1 : SameSlots a b) (h2 : SameSlots b c) : SameSlots a c :=
+  ⟨h2.1.trans h1.1, fun d => (h2.2 d).trans (h1.2 d)⟩
+
+theorem sameSlots_setConn (s : St) (c : Nat) (p : Phase) (h : p.live = (s.conn c).live) : SameSlots s (s.setConn c p) := by
+  refine ⟨rfl, fun d => ?_⟩
+  simp only [St.setConn]; split <;> simp_all
+
+theorem sameSlots_emit (s : St) (c : Nat) (r : Reply) (h : (s.conn c).live = true) : SameSlots s (emit s c r).1 := by
+  unfold emit; split <;> exact sameSlots_setConn s c _ (by rw [h]; rfl)
+
+theorem sameSlots_updAgent (s : St) (c : Nat) (f : Agent → Agent) : SameSlots s (s.updAgent c f) := ⟨rfl, fun _ => rfl⟩
+
+theorem sameSlots_finishGame (s : St) (c : Nat) (a : Act) (h : (s.conn c).live = true) : SameSlots s (finishGame s c a).1 :=
+  (sameSlots_updAgent s c _).trans (sameSlots_emit _ c _ h)
+
+theorem sameSlots_finishReset (S : Settings) (s : St) (c : Nat) (t : Bool) (h : (s.conn c).live = true) : SameSlots s (finishReset S s c t).1 :=
+  (sameSlots_updAgent s c _).trans (sameSlots_emit _ c _ h)
+
+theorem sameSlots_releaseEnd (s : St) (l : List Nat) : SameSlots s (releaseEnd s l).1 := by
+  induction l generalizing s with
+  | nil => exact SameSlots.refl s
+  | cons c cs ih =>
+    simp only [releaseEnd]
+    split
+    · rename_i a hc; exact (sameSlots_finishGame s c a (by simp [hc, Phase.live])).trans (ih _)
+    · exact ih s
+
+theorem sameSlots_releaseStart (S : Settings) (s : St) (l : List Nat) : SameSlots s (releaseStart S s l).1 := by
+  induction l generalizing s with
+  | nil => exact SameSlots.refl s
+  | cons c cs ih =>
+    simp only [releaseStart]
+    split
+    · rename_i hc; exact (sameSlots_emit s c _ (by simp [hc, Phase.live])).trans (ih _)
+    · rename_i t hc; exact (sameSlots_finishReset S s c t (by simp [hc, Phase.live])).trans (ih _)
+    · exact ih s
+
+theorem sameSlots_rewardTask (S : Settings) (s : St) : SameSlots s (rewardTask S s) := ⟨rfl, fun _ => rfl⟩
+
+theorem sameSlots_resetTask (S : Settings) (s : St) (o : Oracle) : SameSlots s (resetTask S s o) := by
+  refine ⟨rfl, fun d => ?_⟩
+  simp only [resetTask]
+  split <;> simp_all [Phase.live]
+
+theorem sameSlots_settle (S : Settings) (s : St) (o : Oracle) (e r : Bool) : SameSlots s (settle S s o e r).1 := by
+  unfold settle
+  have h1 : SameSlots s (if e then releaseEnd (rewardTask S s) s.ids else (s, [])).1 := by
+    cases e
+    · exact SameSlots.refl s
+    · exact (sameSlots_rewardTask S s).trans (sameSlots_releaseEnd _ _)
+  generalize (if e then releaseEnd (rewardTask S s) s.ids else (s, [])) = p1 at h1
+  obtain ⟨s1, o1⟩ := p1
+  simp only at h1 ⊢
+  have h2 : SameSlots s1 (if r then resetTask S s1 o else s1) := by
+    cases r
+    · exact SameSlots.refl s1
+    · exact sameSlots_resetTask S s1 o
+  generalize (if r then resetTask S s1 o else s1) = s2 at h2
+  have h3 : SameSlots s2 (if s2.startEv then releaseStart S s2 s2.ids else (s2, [])).1 := by
+    split
+    · exact sameSlots_releaseStart S s2 _
+    · exact SameSlots.refl s2
+  generalize (if s2.startEv then releaseStart S s2 s2.ids else (s2, [])) = p3 at h3
+  obtain ⟨s3, o3⟩ := p3
+  exact h1.trans (h2.trans h3)
+
+theorem sameSlots_removeAgent (s : St) (c : Nat) : SameSlots s (removeAgent s c).1 := by
+  unfold removeAgent; split <;> exact ⟨rfl, fun _ => rfl⟩
+
+/-- a departure: exactly one slot is returned, exactly that connection stops being live -/
+theorem leave_slots (S : Settings) (s : St) (c : Nat) (o : Oracle) :
+    let s' := (settle S (closeConn (removeAgent s c).1 c) o (removeAgent s c).2.1 (removeAgent s c).2.2).1
+    s'.slots = s.slots - 1 ∧ (s'.conn c).live = false ∧ ∀ d, d ≠ c → (s'.conn d).live = (s.conn d).live := by
+  intro s'
+  have h1 := sameSlots_removeAgent s c
+  have h2 := sameSlots_settle S (closeConn (removeAgent s c).1 c) o (removeAgent s c).2.1 (removeAgent s c).2.2
+  refine ⟨?_, ?_, ?_⟩
+  · rw [h2.1]; simp [closeConn, St.setConn, h1.1]
+  · rw [h2.2 c]; simp [closeConn, St.setConn, Phase.live]
+  · intro d hd; rw [h2.2 d]; simp [closeConn, St.setConn, hd, h1.2 d]
+
+/-- how each event moves the slot counter and the set of live connections -/
+inductive SlotMove (S : Settings) (s s' : St) : Prop
+  | same : SameSlots s s' → SlotMove S s s'
+  | taken (c : Nat) : s.slots < S.required → (s.conn c).live = false → (s'.conn c).live = true → s'.slots = s.slots + 1 →
+      (∀ d, d ≠ c → (s'.conn d).live = (s.conn d).live) → SlotMove S s s'
+  | freed (c : Nat) : (s.conn c).live = true → (s'.conn c).live = false → s'.slots = s.slots - 1 →
+      (∀ d, d ≠ c → (s'.conn d).live = (s.conn d).live) → SlotMove S s s'
+
+theorem sameSlots_handle_nonquit (S : Settings) (s : St) (c : Nat) (m : Msg) (o : Oracle)
+    (hc : s.conn c = .reading) (hq : m ≠ .quit) : SameSlots s (handle S s c m o).1 := by
+  have hl : (s.conn c).live = true := by simp [hc, Phase.live]
+  cases m with
+  | bad => exact sameSlots_emit s c _ hl
+  | quit => exact absurd rfl hq
+  | join n r =>
+    simp only [handle]
+    split
+    · exact sameSlots_emit s c _ hl
+    · cases r with
+      | none => exact sameSlots_emit s c _ hl
+      | some r =>
+        simp only
+        refine SameSlots.trans ?_ (sameSlots_settle S _ o false false)
+        refine ⟨by split <;> rfl, fun d => ?_⟩
+        split <;> (simp only [St.setConn, St.setAgent]; split <;> simp_all [Phase.live])
+  | reset t =>
+    simp only [handle]
+    split
+    · exact sameSlots_emit s c _ hl
+    · refine SameSlots.trans ?_ (sameSlots_settle S _ o false _)
+      exact (sameSlots_updAgent s c _).trans (sameSlots_setConn _ c _ (by simp [St.updAgent, hc, Phase.live]))
+  | game a =>
+    simp only [handle]
+    split
+    · exact sameSlots_emit s c _ hl
+    · split
+      · exact sameSlots_emit s c _ hl
+      · split
+        · exact sameSlots_emit s c _ hl
+        · split
+          · refine SameSlots.trans ?_ (sameSlots_settle S _ o _ false)
+            exact (sameSlots_updAgent s c _).trans (sameSlots_setConn _ c _ (by simp [St.updAgent, hc, Phase.live]))
+          · exact (sameSlots_updAgent s c _).trans (sameSlots_finishGame _ c a (by simp [St.updAgent, hl]))
+
+theorem C18_slot_move (S : Settings) (s : St) (e : Ev) : SlotMove S s (deliver S s e).1 := by
+  cases e with
+  | connect c =>
+    simp only [deliver]
+    split
+    · rename_i hc
+      split
+      · exact .same (sameSlots_setConn s c _ (by simp [hc, Phase.live]))
+      · rename_i hlt; refine .taken c (by omega) (by simp [hc, Phase.live]) (by simp [St.setConn, Phase.live]) rfl (fun d hd => by simp [St.setConn, hd])
+    · exact .same (SameSlots.refl s)
+  | armWriteFault c => exact .same ⟨rfl, fun _ => rfl⟩
+  | leave c o =>
+    simp only [deliver]
+    split
+    · rename_i hc; obtain ⟨h1, h2, h3⟩ := leave_slots S s c o; exact .freed c (by simp [hc, Phase.live]) h2 h1 h3
+    · rename_i hc; obtain ⟨h1, h2, h3⟩ := leave_slots S s c o; exact .freed c (by simp [hc, Phase.live]) h2 h1 h3
+    · exact .same (SameSlots.refl s)
+  | msg c m o =>
+    simp only [deliver]
+    split
+    · rename_i hc
+      by_cases hq : m = .quit
+      · subst hq
+        obtain ⟨h1, h2, h3⟩ := leave_slots S s c o
+        exact .freed c (by simp [hc, Phase.live]) h2 h1 h3
+      · exact .same (sameSlots_handle_nonquit S s c m o hc hq)
+    · exact .same (SameSlots.refl s)
+
+/-- number of live connections among the ids in `L` -/
+def liveCount (s : St) (L : List Nat) : Nat := (L.filter (fun c => (s.conn c).live)).length
+
+theorem liveCount_congr (s s' : St) (L : List Nat) (h : ∀ d ∈ L, (s'.conn d).live = (s.conn d).live) :
+    liveCount s' L = liveCount s L := by
+  unfold liveCount
+  congr 1
+  apply List.filter_congr
+  intro d hd; exact h d hd
+
+theorem liveCount_flip (s s' : St) (c : Nat) (L : List Nat) (hn : L.Nodup) (hc : c ∈ L)
+    (h0 : (s.conn c).live = false) (h1 : (s'.conn c).live = true)
+    (ho : ∀ d, d ≠ c → (s'.conn d).live = (s.conn d).live) : liveCount s' L = liveCount s L + 1 := by
+  induction L with
+  | nil => cases hc
+  | cons x xs ih =>
+    have hnx : x ∉ xs := (List.nodup_cons.1 hn).1
+    have hnn : xs.Nodup := (List.nodup_cons.1 hn).2
+    by_cases hx : x = c
+    · subst hx
+      have : liveCount s' xs = liveCount s xs := liveCount_congr s s' xs (fun d hd => ho d (fun e => hnx (e ▸ hd)))
+      simp only [liveCount, List.filter_cons, h0, h1] at this ⊢
+      simp [this]
+    · have hc' : c ∈ xs := by cases hc with | head => exact absurd rfl hx | tail _ h => exact h
+      have := ih hnn hc'
+      simp only [liveCount, List.filter_cons, ho x hx] at this ⊢
+      split <;> simp [this]
+
+theorem liveCount_cons_dead (s : St) (c : Nat) (L : List Nat) (h : (s.conn c).live = false) : liveCount s (c :: L) = liveCount s L := by
+  simp [liveCount, List.filter_cons, h]
+
+theorem liveCount_cons_live (s : St) (c : Nat) (L : List Nat) (h : (s.conn c).live = true) : liveCount s (c :: L) = liveCount s L + 1 := by
+  simp [liveCount, List.filter_cons, h]
+
+/-- **Counting invariant.** The slot counter always equals the number of live connections (counted
+over any duplicate-free list that contains all of them) and never exceeds the limit. -/
+structure SlotInv (S : Settings) (s : St) : Prop where
+  count : ∀ L : List Nat, L.Nodup → (∀ c, (s.conn c).live = true → c ∈ L) → s.slots = liveCount s L
+  bound : s.slots ≤ S.required
+
+theorem slotInv_init (S : Settings) : SlotInv S init :=
+  ⟨fun L _ _ => by
+    have : (L.filter (fun c => (init.conn c).live)) = [] := by
+      apply List.filter_eq_nil_iff.2; intro a _; simp [init, Phase.live]
+    show init.slots = (L.filter (fun c => (init.conn c).live)).length
+    rw [this]; rfl, by simp [init]⟩
+
+theorem slotInv_step (S : Settings) (s : St) (e : Ev) (h : SlotInv S s) : SlotInv S (deliver S s e).1 := by
+  have hm := C18_slot_move S s e
+  generalize (deliver S s e).1 = s' at hm
+  cases hm with
+  | same hs =>
+    refine ⟨fun L hn hL => ?_, by rw [hs.1]; exact h.bound⟩
+    rw [hs.1, h.count L hn (fun c hc => hL c (by rw [hs.2 c]; exact hc))]
+    exact (liveCount_congr s s' L (fun d _ => hs.2 d)).symm
+  | taken c hlt h0 h1 hsl ho =>
+    refine ⟨fun L hn hL => ?_, by omega⟩
+    have hcL : c ∈ L := hL c h1
+    have hLs : ∀ d, (s.conn d).live = true → d ∈ L := by
+      intro d hd
+      by_cases hdc : d = c
+      · subst hdc; exact hcL
+      · exact hL d (by rw [ho d hdc]; exact hd)
+    rw [hsl, h.count L hn hLs, liveCount_flip s s' c L hn hcL h0 h1 ho]
+  | freed c h1 h0 hsl ho =>
+    have hb := h.bound
+    refine ⟨fun L hn hL => ?_, by omega⟩
+    by_cases hcL : c ∈ L
+    · have hLs : ∀ d, (s.conn d).live = true → d ∈ L := by
+        intro d hd
+        by_cases hdc : d = c
+        · subst hdc; exact hcL
+        · exact hL d (by rw [ho d hdc]; exact hd)
+      have := liveCount_flip s' s c L hn hcL h0 h1 (fun d hd => (ho d hd).symm)
+      rw [hsl, h.count L hn hLs, this]; omega
+    · have hn' : (c :: L).Nodup := List.nodup_cons.2 ⟨hcL, hn⟩
+      have hLs : ∀ d, (s.conn d).live = true → d ∈ c :: L := by
+        intro d hd
+        by_cases hdc : d = c
+        · subst hdc; exact List.mem_cons_self
+        · exact List.mem_cons_of_mem _ (hL d (by rw [ho d hdc]; exact hd))
+      have hc1 := h.count (c :: L) hn' hLs
+      rw [liveCount_cons_live s c L h1] at hc1
+      have : liveCount s' L = liveCount s L := liveCount_congr s s' L (fun d hd => ho d (fun e => hcL (e ▸ hd)))
+      rw [hsl, hc1, this]; omega
+
+end NSG.Coord
+
+namespace NSG.Coord
+
+/-- **C18, bounded:** along every history the number of served connections equals the slot counter
+and never exceeds the configured number of required players. -/
+theorem C18_bound (S : Settings) (es : List Ev) : SlotInv S (run S init es).1 := by
+  suffices H : ∀ s, SlotInv S s → SlotInv S (run S s es).1 from H init (slotInv_init S)
+  induction es with
+  | nil => intro s h; simpa [run] using h
+  | cons e es ih => intro s h; simp only [run]; exact ih _ (slotInv_step S s e h)
+
+/-- **refused beyond the limit:** a connection arriving when all slots are taken is closed at once,
+receives nothing, and has no influence: nothing but its own (closed) phase changes. -/
+theorem C18_refused (S : Settings) (s : St) (c : Nat) (hc : s.conn c = .absent) (hfull : S.required ≤ s.slots) :
+    (deliver S s (.connect c)).2 = [.refused c] ∧ (deliver S s (.connect c)).1.agents = s.agents ∧
+    (deliver S s (.connect c)).1.ids = s.ids ∧ (deliver S s (.connect c)).1.slots = s.slots ∧
+    (deliver S s (.connect c)).1.startEv = s.startEv ∧ ∀ d, d ≠ c → (deliver S s (.connect c)).1.conn d = s.conn d := by
+  simp only [deliver, hc, hfull, if_true]
+  exact ⟨trivial, rfl, rfl, rfl, rfl, fun d hd => by simp [St.setConn, hd]⟩
+
+/-- **served below the limit:** once fewer than the limit are connected, a new connection is served -/
+theorem C18_served (S : Settings) (s : St) (c : Nat) (hc : s.conn c = .absent) (hfree : s.slots < S.required) :
+    (deliver S s (.connect c)).1.conn c = .reading ∧ (deliver S s (.connect c)).2 = [] := by
+  have : ¬ S.required ≤ s.slots := by omega
+  simp [deliver, hc, this, St.setConn]
+
+/-- **always given back:** every way a served connection can end - QuitGame, EOF, read error, the quit
+after a failed write - returns exactly its slot. -/
+theorem C18_freed (S : Settings) (s : St) (c : Nat) (o : Oracle) (hc : s.conn c = .reading ∨ s.conn c = .dead) :
+    (deliver S s (.leave c o)).1.slots = s.slots - 1 ∧ ((deliver S s (.leave c o)).1.conn c).live = false := by
+  obtain ⟨h1, h2, _⟩ := leave_slots S s c o
+  rcases hc with hc | hc <;> (simp only [deliver, hc]; exact ⟨h1, h2⟩)
+
+theorem C18_freed_quit (S : Settings) (s : St) (c : Nat) (o : Oracle) (hc : s.conn c = .reading) :
+    (deliver S s (.msg c .quit o)).1.slots = s.slots - 1 ∧ ((deliver S s (.msg c .quit o)).1.conn c).live = false := by
+  obtain ⟨h1, h2, _⟩ := leave_slots S s c o
+  simp only [deliver, hc, handle]; exact ⟨h1, h2⟩
+
+end NSG.Coord
